@@ -10,6 +10,7 @@ import (
 	"os"
 	"strconv"
 	"sync"
+	"sync/atomic"
 	"time"
 
 	"github.com/innovationb1ue/RedisGO/config"
@@ -131,10 +132,29 @@ func isPush(v []byte) bool {
 
 type span struct{ a, b int }
 
+// srvConn is the connection object handed to Manager.Handle: the accepted TCP connection, which
+// the harness can declare dead.  A dead connection behaves like one whose peer has vanished:
+// writes fail, reads keep blocking, so the server only learns about it when it writes.
+type srvConn struct {
+	net.Conn
+	dead   int32
+	failed int32 // a write was attempted after the connection died
+}
+
+var errDead = fmt.Errorf("write: connection is dead (harness)")
+
+func (s *srvConn) Write(b []byte) (int, error) {
+	if atomic.LoadInt32(&s.dead) == 1 {
+		atomic.StoreInt32(&s.failed, 1)
+		return 0, errDead
+	}
+	return s.Conn.Write(b)
+}
+
 type client struct {
 	id      int
 	conn    net.Conn // our side
-	srv     net.Conn // the server's side (argument of Manager.Handle)
+	srv     *srvConn // the server's side (argument of Manager.Handle)
 	done    chan struct{}
 	mu      sync.Mutex
 	cond    *sync.Cond
@@ -145,9 +165,10 @@ type client struct {
 	sent    int    // commands sent so far
 	cuts    []span // barrier replies, removed from what is reported
 	closed  bool
+	reaped  bool
 }
 
-func newClient(id int, conn, srv net.Conn, done chan struct{}) *client {
+func newClient(id int, conn net.Conn, srv *srvConn, done chan struct{}) *client {
 	c := &client{id: id, conn: conn, srv: srv, done: done}
 	c.cond = sync.NewCond(&c.mu)
 	go c.reader()
@@ -287,15 +308,16 @@ func (e *srvEnv) connect(id int) (*client, error) {
 	if err != nil {
 		return nil, err
 	}
-	var srv net.Conn
+	var raw net.Conn
 	select {
-	case srv = <-e.accepted:
+	case raw = <-e.accepted:
 	case <-time.After(5 * time.Second):
 		return nil, fmt.Errorf("accept timeout")
 	}
-	if srv == nil || srv.RemoteAddr().String() != conn.LocalAddr().String() {
+	if raw == nil || raw.RemoteAddr().String() != conn.LocalAddr().String() {
 		return nil, fmt.Errorf("accepted connection does not match")
 	}
+	srv := &srvConn{Conn: raw}
 	done := make(chan struct{})
 	e.wg.Add(1)
 	mgr := e.mgr
